@@ -61,11 +61,17 @@ theorem signed_unless_exempt (env : Env) (conn : Conn) (r : Req) (u : UpReq) (gu
     · intro e; rw [hsg] at e; cases e
     · intro e; rw [hns] at e; cases e
 
+/-- **obligation on generated facts**: the two URL texts compared in `should_skip_sig` are the documented ones, and there are
+exactly two method/URL clauses -/
+theorem skip_urls_are_spec : Gpa.Facts.skipSigPutUrl.toList = "/vmagentlog".toList ∧
+    Gpa.Facts.skipSigPostUrl.toList = "/machine/?comp=telemetrydata".toList ∧ Gpa.Facts.skipSigClauses = 2 := by decide
+
 theorem skip_iff (method : Str) (u : Uri) :
     shouldSkipSig method u = true ↔
       ((method = "PUT".toList ∧ lower u.toStr = "/vmagentlog".toList) ∨
        (method = "POST".toList ∧ lower u.toStr = "/machine/?comp=telemetrydata".toList)) := by
   unfold shouldSkipSig
+  rw [skip_urls_are_spec.1, skip_urls_are_spec.2.1]
   simp only [Bool.or_eq_true, Bool.and_eq_true, decide_eq_true_eq]
 
 /-- **C04(e)** layout/coverage: the signed string is
